@@ -1075,6 +1075,42 @@ def curve_lookup_converted(k: Kit, rule: str) -> None:
                       fi.loc(fi.node))
 
 
+def hashed_empty_addr(k: Kit, rule: str) -> None:
+    """A hashed entry is not compared with an address that is not there."""
+    from ..absint import evaluate_total
+    rep = k.rep
+    idx = k.idx
+    fi = k.func('known_hosts._HashedHost.matches')
+    body = [st for st in fi.node.body if not (
+        isinstance(st, ast.Expr) and isinstance(st.value, ast.Constant))]
+    bad = None
+    for host, addr in (('h', ''), ('h', '1.2.3.4'), ('', '')):
+        calls = []
+
+        def on_call(nm, args, env, calls=calls):
+            if nm == 'self._match':
+                calls.append(args[0])
+                return False
+            if nm == 'bool':
+                return bool(args[0])
+            return Obj('x')
+        try:
+            evaluate(idx, fi.module, body, {},
+                     {'host': host, 'addr': addr, '_ip': None}, on_call)
+        except NotEvaluable as exc:
+            rep.error(rule, key(fi, 'not-evaluable'), str(exc))
+            return
+        if '' in calls and addr == '' and host != '' and bad is None:
+            bad = (f'lookup of host {host!r} without an address hashes the '
+                   f'empty string (compared {calls!r})')
+    rep.check(bad is None, rule, key(fi, 'no match on an absent address'),
+              'the address is hashed only when there is one',
+              f'{bad}: a hashed known_hosts entry made from the empty name '
+              'matches every connection that has no peer address '
+              '(proxy_command, tunnel) - the sibling of the plain empty '
+              'name', fi.loc(fi.node))
+
+
 def r5(k: Kit) -> None:
     """Bracket escaping of host patterns; every line for a key is tried."""
     rep = k.rep
@@ -1225,6 +1261,40 @@ def _lower_ok(k, rep, fi, g, rd, nd, expr) -> None:
               k.loc(fi, nd))
 
 
+def ca_lines_routed(k: Kit, rule: str) -> None:
+    """cert-authority lines never serve as plain key lines."""
+    rep = k.rep
+    fi = k.func('auth_keys.SSHAuthorizedKeys.load')
+    g = k.cfg(fi)
+    from ..cfg import Node
+
+    def ca(x) -> Optional[bool]:
+        a = x.ast
+        if x.kind == 'atom' and isinstance(a, ast.Compare) and \
+                len(a.ops) == 1 and isinstance(a.left, ast.Constant) and \
+                a.left.value == 'cert-authority':
+            if isinstance(a.ops[0], ast.In):
+                return False        # satisfied on the "not a CA line" edge
+            if isinstance(a.ops[0], ast.NotIn):
+                return True
+        return None
+    apps = [nd for nd, c in k.calls_named(fi, 'append', 'self._user_entries')]
+    apps += [nd for nd in g.nodes if isinstance(nd.ast, ast.Assign) and any(
+        isinstance(t, ast.Subscript) and
+        dotted(t.value) == 'self._user_entries' for t in nd.ast.targets)]
+    rep.floor(rule, 'plain-key entry stores', len(apps), 1)
+    for nd in apps:
+        w = g.guarded_by(nd.id, ca)
+        rep.check(w is None, rule,
+                  key(fi, 'cert-authority lines are CA lines only'),
+                  '_user_entries.append only when cert-authority is absent',
+                  'a line marked cert-authority is also filed as an '
+                  'ordinary key line: the CA key itself logs in when '
+                  'presented as a plain public key, and the line\'s '
+                  'principals= restriction is never evaluated',
+                  k.loc(fi, nd), g.describe_path(w) if w else None)
+
+
 def run(idx, rep, tier):
     k = Kit(idx, rep)
     rep.assumptions += NOT_DECIDED
@@ -1237,6 +1307,7 @@ def run(idx, rep, tier):
     r3_case(k)
     r4(k)
     r4_cert_kind(k)
+    ca_lines_routed(k, 'C17.R4')
     key_alg_consistent(k, 'C17.R4')
     curve_lookup_converted(k, 'C17.R4')
     strict_networks(k, 'C17.R1')
@@ -1248,6 +1319,7 @@ def run(idx, rep, tier):
     port_fallback(k, 'C17.R6')
     build_pattern_witnesses(k, 'C17.R1')
     no_empty_host_name(k, 'C17.R2')
+    hashed_empty_addr(k, 'C17.R2')
     # C17.R7: shared rule
     from .c04 import r6 as _c04r6
     rep.rule('C17.R7', 'lookups do not change the loaded file (= C04.R6): SSHKnownHosts._match builds its result in a fresh list and never extends a stored per-host entry list')
